@@ -236,6 +236,8 @@ def handle : Handler := fun op inp impl =>
     { agree := iOk == mOk, holds := why.isEmpty, nontrivial := true, model := Json.mkObj [("ok", mOk)], why := why,
       cls := client ++ (if want then ":success" else ":failure") }
   | "runloop" => handleRunLoop inp impl
+  -- the same scenarios through the real command (exit status = verdict)
+  | "runcli" => handleRunLoop inp impl
   | _ => bad ("C04: unknown op " ++ op)
 
 end ConfModel.Driver.C04
